@@ -145,10 +145,11 @@ Inductive must_dirty : node -> Prop :=
     g_producer g n = Some e -> spec_load e = LdFail -> must_dirty n.
 
 (* well-formedness the specification theorem needs (true of every parsed manifest):
-   outputs know their producer; statements with deps are not phony and their order-only
+   outputs know their producer and vice versa; statements with deps are not phony and their order-only
    counter is within the vector *)
 Definition wf_spec : Prop :=
   (forall e o, In o (ei_outs (g_edge g e)) -> g_producer g o = Some e) /\
+  (forall n e, g_producer g n = Some e -> In n (ei_outs (g_edge g e))) /\
   (forall e, ei_deps (g_edge g e) <> DepsNone ->
              ei_phony (g_edge g e) = false /\
              (ei_noo (g_edge g e) <= length (ei_ins (g_edge g e)))%nat).
